@@ -25,8 +25,9 @@ PROPS = {
     "C04": dict(kinds=["bfs"], dirs=["out", "in"], cyc=[False], flavours=ALL4),
     "C05": dict(kinds=["dfs"], dirs=["out", "in"], cyc=[False], flavours=ALL4),
     "C06": dict(kinds=["pfsmin", "pfsmax"], dirs=["out", "in"], cyc=[False], flavours=ALL4, cmp=True),
-    "C07": dict(kinds=ALLK, dirs=["out", "in"], cyc=[False, True], flavours=ALL4, rej_quick="small", rej_thorough="all", nvals_quick=[0]),
-    "C08": dict(kinds=ALLK, dirs=["out", "in"], cyc=[False, True], flavours=["digraph", "sync_digraph"], nvals_quick=[0, 1]),
+    "C07": dict(kinds=ALLK, dirs=["out", "in"], cyc=[False, True], flavours=ALL4, rej_quick="small", rej_thorough="all", nvals_quick=[0],
+                kinds_quick=["bfs", "dfs", "pfsmin", "pre", "post"]),
+    "C08": dict(kinds=ALLK, dirs=["out", "in"], cyc=[False, True], flavours=["digraph", "sync_digraph"], nvals_quick=[0]),
     "C09": dict(kinds=["bfs", "dfs", "pfsmin", "pfsmax"], dirs=["out", "in"], cyc=[True], flavours=ALL4),
     "C10": dict(kinds=["pre", "post"], dirs=["out", "in"], cyc=[False], flavours=ALL4),
 }
@@ -123,7 +124,9 @@ def adjudicate(mism, directed, nodes, tag):
 
 def run(pid, tier, seed):
     rep = Reporter(pid, tier, seed)
-    conf = PROPS[pid]
+    conf = dict(PROPS[pid])
+    if conf.get("kinds_" + tier):
+        conf["kinds"] = conf["kinds_" + tier]
     T = TIERS[tier]
     flavours = conf["flavours"]
     tag = "%s_%s_%d" % (pid, tier, os.getpid())
